@@ -501,6 +501,7 @@ def run(ck):
     from . import C17
     C17.check_fail(ck, prog)
     C17.check_perfile(ck, prog)
+    C17.check_msg_status(ck, prog, rule="C18-STATUS")
     # xz recognises exactly the .lzma files that the library (and lzmadec) decode (rule shared with C16)
     from . import C16
     C16.check_xz_lzma_heur(ck, prog, rule="C18-FMT")
